@@ -2,7 +2,7 @@
 uint64_t IN_n, IN_gk;
 double IN_a, IN_b, IN_c, IN_d, IN_e;
 bool IN_xr;
-#if defined(VF_ENTRY_h_poly_translate) || defined(VF_ENTRY_h_poly_scale) || defined(VF_ENTRY_h_poly_rotate) || defined(VF_ENTRY_h_poly_transform)
+#if defined(VF_ENTRY_h_poly_translate) || defined(VF_ENTRY_h_poly_scale) || defined(VF_ENTRY_h_poly_mirror) || defined(VF_ENTRY_h_poly_rotate) || defined(VF_ENTRY_h_poly_transform)
 static Polygon c10_poly;
 static void c10_poly_state(void) {
     VF_IN(u64, IN_n); VF_IN(u64, IN_gk);
@@ -40,6 +40,16 @@ void h_poly_scale(void) {
     Vec2 scale_factor, center; VF_IN(double, IN_a); VF_IN(double, IN_b); VF_IN(double, IN_c);
     scale_factor.x = IN_a; scale_factor.y = IN_b; center.x = IN_c; center.y = IN_b;
     VF_CALL_V(Polygon__scale, this_, scale_factor, center);
+}
+#endif
+#ifdef VF_ENTRY_h_poly_mirror
+double IN_f;
+void h_poly_mirror(void) {
+    c10_poly_state();
+    Polygon *this_ = &c10_poly;
+    Vec2 p0, p1; VF_IN(double, IN_a); VF_IN(double, IN_b); VF_IN(double, IN_c); VF_IN(double, IN_f);
+    p0.x = IN_a; p0.y = IN_b; p1.x = IN_c; p1.y = IN_f;
+    VF_CALL_V(Polygon__mirror, this_, p0, p1);
 }
 #endif
 #ifdef VF_ENTRY_h_poly_rotate
